@@ -39,7 +39,7 @@ WS_EXOTIC = ['\x0c', '\x0b', '\xa0', '\u2003', '\r', '\x85', '\u2028']
 DBML_TOKENS = ['Table', 'Enum', 'Ref', 'Ref:', 'TableGroup', 'Project', 'Note', 'Note:', 'note:', 'indexes', 'as', '{', '}', '[', ']',
                '(', ')', ',', ':', '.', '>', '<', '-', '<>', 'pk', 'unique', 'not null', 'null', 'increment', 'default:', 'ref:',
                'headercolor:', '#fff', '#12345', 'type:', 'btree', 'name:', 'update:', 'delete:', 'cascade', "'s'", '"q"', "'''m\nl'''",
-               '`e`', 'a', 'b', 't1', 'int', 'varchar(255)', '1', '1.5', 'true', '\n', '\n', '\n', '// c', '/* c */', ' ', '  ']
+               '`e`', 'a', 'b', 't1', 'int', 'varchar(255)', '1', '1.5', '1.2.3', '1..2', '10.0.0.1', '.5', '5.', '1e5', '-1', '0x10', 'true', '\n', '\n', '\n', '// c', '/* c */', ' ', '  ']
 
 
 def allowed_parse_error(e):
@@ -321,6 +321,12 @@ def run_shard(spec, tier, seed, budget_s):
         doc = site_doc(site, s)
         text = surface.render(doc, j, surface.CANON)
         run_input(sh, text, 'short@' + site, props=True, feats={'site': site, 'string': s})
+    # hostile literals in the default position
+    if i == 1:
+        for lit in ['1.2.3', '1..2', '10.0.0.1', '.5', '5.', '1e5', '-1', '+1', '0x10', '1_000', '１２', '1.', '..', 'tru', 'nul', 'NULLL', '`', '``', "''", '""',
+                    "'''", '#fff', '1 2', '1,2', '(1)', '[1]', '{1}']:
+            run_input(sh, 'Table t {\n a int [default: ' + lit + ']\n}', 'literal', feats={'literal': lit})
+            run_input(sh, 'Table t {\n a int [default: ' + lit + ', pk]\n b int\n}', 'literal', feats={'literal': lit})
     # hostile substitution
     k = 0
     target = {'quick': 150, 'thorough': 6000}[tier]
